@@ -752,13 +752,18 @@ func (c *Context) Cbrt(d, x *Decimal) (Condition, error) {
 	}
 
 	res := c.round(d, &z)
-	if d.Form == Finite && !d.IsZero() && res&(Subnormal|Overflow|Clamped) == 0 {
+	if d.Form == Finite && !d.IsZero() && res&(Overflow|Clamped) == 0 {
 		// z is off by a little, so a directed rounding of z can land two
 		// units away from the root: step back while the neighbour towards
-		// the root is still on the far side of it.
+		// the root is still on the far side of it. The unit of a subnormal
+		// result is 10**Etiny.
 		var ulp, nb Decimal
 		for i := 0; i < 2; i++ {
-			ulp.SetFinite(1, d.Exponent-(int32(c.Precision)-int32(d.NumDigits())))
+			ue := d.Exponent - (int32(c.Precision) - int32(d.NumDigits()))
+			if et := c.etiny(); ue < et {
+				ue = et
+			}
+			ulp.SetFinite(1, ue)
 			exact.Sub(&nb, d, &ulp)
 			exact.Mul(&cube, &nb, &nb)
 			exact.Mul(&cube, &cube, &nb)
